@@ -199,7 +199,46 @@ func c17Subst(t Term, consts *vConsts, ins []Term) Term {
 
 // VH_C17: inst selects the grammar; the query by case split.
 func VH_C17(vm *VM, inst int) {
-	c := c17Cases[inst]
+	c17Run(vm, c17Cases[inst])
+}
+
+// VH_C17_shape: generated family. Body = [k0], then 2..3 elements of which one is a cut element (position and kind
+// by case split: !, {!}, {true, !}) - elements before it [], the one after it the terminal [k1] - in EVERY
+// parenthesisation of the body; a second rule x --> [k0], [k2] and a third x --> [] make a cut that does not commit
+// visible. Contexts (inst/2): 0 plain rule, 1 push-back head x, [p], 2 the body as the left alternative of ( ; ).
+func VH_C17_shape(vm *VM, inst int) {
+	n := 3 + inst%2
+	ctx := inst / 2
+	cutPos := 1 + choice("cutpos", n-1)
+	cutKind := []string{"!", "{!}", "{true, !}"}[choice("cutkind", 3)]
+	leaves := make([]string, n)
+	leaves[0] = "[k0]"
+	for i := 1; i < n; i++ {
+		switch {
+		case i == cutPos:
+			leaves[i] = cutKind
+		case i == cutPos+1:
+			leaves[i] = "[k1]"
+		default:
+			leaves[i] = "[]"
+		}
+	}
+	trees := c03Trees(leaves)
+	body := trees[choice("shape", len(trees))]
+	var g string
+	switch ctx {
+	case 0:
+		g = "x --> " + body + ". x --> [k0], [k2]. x --> []."
+	case 1:
+		g = "x, [p] --> " + body + ". x --> [k0], [k2]. x --> []."
+	default:
+		g = "x --> ( " + body + " ; [k0], [k2] ). x --> []."
+	}
+	c17Run(vm, c17Case{name: "shape", grammar: g, queries: []string{"phrase(x, [i0, i1]).", "phrase(x, [i0, i1], R).", "phrase(x, [i0], R).", "phrase(x, [i0, i1, i2], R)."}})
+	reach("c17/shape", true)
+}
+
+func c17Run(vm *VM, c c17Case) {
 	vm.doubleQuotes = doubleQuotesChars
 	qi := choice("query", len(c.queries))
 	note("case", c.name+": "+c.grammar+" ?- "+c.queries[qi])
